@@ -1695,3 +1695,90 @@ Proof.
     destruct (uhost u); [left; reflexivity|]. destruct (path u) as [|[|p0 [|p1 r]]]; try (left; reflexivity).
     destruct (str_eqb p0 []); [right|left]; reflexivity.
 Qed.
+
+(* ---------------------------------------------------------------------------------- *)
+(* host setter on a URL whose host is null: "://" is inserted, the "/." prefix removed  *)
+(* ---------------------------------------------------------------------------------- *)
+
+Theorem setter_host_null ps n f c file h ht :
+  PW ps n -> (9 <= n)%nat -> len (nth 1 ps []) = 1 -> pre 6 ps < len (concat ps) ->
+  s_r (run true (init_sst (conc ps n f c) file) [OHostStart; OAppend h; OHostDone ht]) =
+  conc (setp (splice ps 1 5 ([58; 47; 47] ++ h) 3) P_PATH_PREFIX []) n (host_flags f ht) c.
+Proof.
+  intros HPW Hn9 Hsep Hfollow.
+  assert (Hlen : length ps = 11%nat) by (destruct HPW; assumption).
+  assert (Hnl : (n <= length ps)%nat) by (destruct HPW; lia).
+  assert (Hen : en (conc ps n f c) P_HOST = pre 6 ps).
+  { rewrite en_conc by exact Hnl. unfold P_HOST. destruct (Nat.ltb_spec 5 n); [reflexivity|lia]. }
+  pose proof (pre_S_pos ps n 5 HPW) as Hpos.
+  cbn [run fold_left step]. unfold v_start_part, set_start_part.
+  cbn [init_sst w_curr s_r]. rewrite Hen.
+  destruct (N.eqb_spec (pre 6 ps) 0) as [E|_]; [lia|]. cbn [negb].
+  replace (len (r_norm (conc ps n f c))) with (len (concat ps)) by reflexivity.
+  unfold P_HOST, P_FRAGMENT. cbn [Nat.ltb Nat.leb andb].
+  destruct (N.ltb_spec (pre 6 ps) (len (concat ps))) as [_|E]; [|lia].
+  change (part_len (conc ps n f c) P_SCHEME_SEP) with (part_len (conc ps n f c) 1).
+  rewrite (part_len_sep ps n f c HPW ltac:(lia)), Hsep.
+  unfold do_host_done. ssimp. cbv beta iota zeta delta [P_HOST P_SCHEME_SEP].
+  rewrite (part_len_sep ps n f c HPW ltac:(lia)), Hsep. change (1 <? 3) with true. cbn [app].
+  destruct (replace_part_conc ps n f c 1 5 (58 :: 47 :: 47 :: h) 3 HPW ltac:(lia) ltac:(lia)
+              ltac:(intro; rewrite !len_cons; lia)) as [Hrp _].
+  rewrite Hrp.
+  set (ps1 := splice ps 1 5 (58 :: 47 :: 47 :: h) 3).
+  assert (Hl1 : length ps1 = 11%nat) by (unfold ps1; rewrite splice_length; lia).
+  assert (HPW1 : PW ps1 n).
+  { destruct HPW as [_ Hn Hsch Htail]. split; [exact Hl1|exact Hn| |].
+    - unfold ps1, splice. cbn [firstn]. destruct ps as [|p0 ps']; [cbn in Hlen; lia|]. exact Hsch.
+    - intros k Hk. unfold ps1, splice. rewrite app_nth2 by (rewrite firstn_length; lia).
+      rewrite firstn_length, Hlen. replace (Nat.min 1 11) with 1%nat by lia.
+      rewrite app_nth2 by (rewrite middle_length; lia). rewrite middle_length by lia.
+      rewrite nth_skipn_add. replace (6 + (k - 1 - (5 - 1 + 1)))%nat with k by lia. apply Htail. exact Hk. }
+  change (set_host_type (conc ps1 n f c) ht) with (conc ps1 n (host_flags f ht) c).
+  destruct (replace_part_conc ps1 n (host_flags f ht) c 7 7 [] 0 HPW1 ltac:(lia) ltac:(lia) ltac:(intro; lia)) as [Hrp2 _].
+  fold (setp ps1 7 []) in Hrp2. unfold replace_part1.
+  rewrite (is_empty_conc ps1 n (host_flags f ht) c 7 HPW1) by lia. unfold kstart.
+  destruct (len (nth 7 ps1 []) <=? 0) eqn:E7; cbn [negb].
+  - (* no prefix to remove: the piece is already empty *)
+    assert (H7 : nth 7 ps1 [] = []) by (apply len_0; apply N.leb_le in E7; lia).
+    unfold P_PATH_PREFIX. assert (Hs7 : setp ps1 7 [] = ps1) by (rewrite <- H7 at 1; apply setp_same; lia). rewrite Hs7. reflexivity.
+  - exact Hrp2.
+Qed.
+
+Lemma flags_set_host_null u H : uhost u = None -> port u = None ->
+  flags_of (set_host u (Some H)) = host_flags (flags_of u) (host_type_num H).
+Proof.
+  intros Hh Hp. destruct u as [sc us pw ho po pa qu fr]. cbn [uhost port] in *. subst ho po.
+  unfold flags_of, set_host, has_opaque_path, host_flags. cbn [uhost port query fragment path is_some].
+  destruct H; destruct qu; destruct fr; destruct pa; reflexivity.
+Qed.
+
+Theorem host_setter_null_repr u file H :
+  scheme u <> [] -> uhost u = None -> username u = [] -> password u = [] -> port u = None ->
+  path_serialize u <> [] ->
+  s_r (run true (init_sst (repr_of u) file)
+         [OHostStart; OAppend (host_serialize H); OHostDone (host_type_num H)]) =
+  repr_of (set_host u (Some H)).
+Proof.
+  intros Hs Hh Hus Hpw Hpo Hpath. rewrite repr_of_conc.
+  assert (Hpieces : pieces u = [scheme u; [58]; []; []; []; []; []; path_prefix u; path_serialize u;
+                                 match query u with Some q => 63 :: q | None => [] end;
+                                 match fragment u with Some f => 35 :: f | None => [] end]).
+  { unfold pieces. rewrite Hh. reflexivity. }
+  rewrite (setter_host_null (pieces u) 11 (flags_of u) (segs_of u) file (host_serialize H) (host_type_num H)
+             (pieces_PW u Hs) ltac:(lia)).
+  - rewrite repr_of_conc, (flags_set_host_null u H Hh Hpo). f_equal.
+    rewrite Hpieces.
+    assert (Hps : path_serialize (set_host u (Some H)) = path_serialize u) by reflexivity.
+    unfold pieces. rewrite Hps. unfold set_host, includes_credentials, path_prefix.
+    cbn [uhost port scheme username password path query fragment is_some]. rewrite Hus, Hpw, Hpo.
+    cbn [str_eqb negb orb andb].
+    cbv [setp splice middle firstn skipn app Nat.eqb Nat.sub repeat N.to_nat Pos.to_nat Pos.iter_op Nat.add P_PATH_PREFIX].
+    reflexivity.
+  - rewrite Hpieces. reflexivity.
+  - assert (H9 : pre 9 (pieces u) <= len (concat (pieces u))).
+    { rewrite <- (pre_all (pieces u) 11) by (rewrite Hl; lia). apply pre_le. lia. }
+    assert (H6 : pre 6 (pieces u) <= pre 8 (pieces u)) by (apply pre_le; lia).
+    pose proof (pre_S 8 (pieces u) ltac:(rewrite Hl; lia)) as H8.
+    assert (Hn8 : nth 8 (pieces u) [] = path_serialize u) by (rewrite Hpieces; reflexivity).
+    rewrite Hn8 in H8. destruct (path_serialize u) as [|x t]; [contradiction|]. rewrite len_cons in H8. lia.
+Qed.
